@@ -1,5 +1,5 @@
 """C25 — SLIP framing delivers exactly the packets that were sent."""
-import json, os
+import hashlib, json, os
 from lib import vlib
 
 PROP = "C25"
@@ -138,6 +138,87 @@ def gen_framed(rng, wf_only):
     return DIAG, [1]
 
 
+_PAT = {}
+
+
+def pattern(n, kind, seed):
+    """the harness's fillPattern, restated (periodic, so built by tiling one period)"""
+    key = (kind, seed)
+    if key not in _PAT or len(_PAT[key]) < n:
+        if kind == "p":
+            per = bytes(1 + (i * 7 + seed) % 0xBF for i in range(0xBF))
+        elif kind == "e":
+            per = bytes(SPECIAL[(i + seed + i // 5) % 4] for i in range(20))
+        else:
+            per = bytes((i * 31 + seed + i // 251) & 0xFF for i in range(251 * 256))
+        _PAT[key] = per * (max(n, 1 << 19) // len(per) + 1)
+    return _PAT[key][:n]
+
+
+def digest(b):
+    return "%d:%s" % (len(b), hashlib.sha1(bytes(b)).hexdigest()[:12]) if len(b) else "-"
+
+
+BIG_SIZES = [4095, 4096, 4097, 8192, 16383, 16384, 16385, 32768, 65533, 65534, 65535, 65536, 65537, 70000,
+             131069, 131070, 131071, 131072, 131073, 196608, 262143, 262144, 262145]
+ALIAS_FRAMES = [DIAG, COAP, 0x45, 0x4F, 0x60, 0x6F, 0x01, ESC_END, ESC_ESC, 0xFF, 0x00, END, ESC]
+ALIAS_SPECS = [[(0, 16), (16, 16), (32, 16), (48, 16), (64, 16), (80, 16)],          # consecutive blocks of one image
+               [(0, 16), (8, 16), (16, 16), (4, 24), (0, 40)],                        # overlapping blocks
+               [(5, 10), (5, 10), (5, 10)],                                           # the same slice again (retransmission)
+               [(0, 4), (4, 4), (0, 4), (8, 88), (0, 96)],                            # tiny, then up to the end (no spare capacity)
+               [(90, 6), (0, 1), (1, 1), (2, 5), (40, 7)]]
+
+
+def alias_buffer(ft, specs, salt):
+    b = bytearray((i * 37 + salt) & 0xFF for i in range(96))
+    for i in range(0, 96, 7):
+        b[i] = SPECIAL[(i + salt) % 4]
+    if ft is not None and is_ip(ft):
+        for off, n in specs:
+            b[off] = ft          # IP frames are not prepended: the payload starts with the frame byte
+    return bytes(b)
+
+
+def gen_deterministic_ops(ctx):
+    """size-boundary payloads and caller-buffer aliasing: fixed (seed-independent) streams in both tiers"""
+    ops = []
+    small = ["3:p:1", "5:e:2", "2:m:3"]
+    splitsets = ["4096", "1", "7,4096,1", "65536", "3"]
+    k = 0
+    for n in BIG_SIZES:
+        for kind in "pem":
+            for pos in range(3):                      # first / middle / last packet of the stream
+                spec = "%d:%s:%d" % (n, kind, k % 4)
+                seq = small[:]
+                seq.insert([0, 1, 3][pos], spec)
+                ops.append("big %s %s" % (splitsets[k % len(splitsets)], " ".join(seq)))
+                k += 1
+    ops.append("big 4096 65536:p:0 65536:e:1 131072:m:2 1:p:3")
+    ops.append("big 1 65536:e:0 65536:e:0")
+    ops.append("big 4096 300000:m:1 300000:e:2 65536:p:3 65536:p:3")
+    mux_small = ["0a:3:p:1", "a9:5:e:2", "45:4:m:3"]
+    for n in BIG_SIZES:
+        for j, ft in enumerate([DIAG, COAP, 0x45, 0x6F, ESC_ESC]):
+            spec = "%02x:%d:%s:%d" % (ft, n, "pem"[(k + j) % 3], k % 4)
+            seq = mux_small[:]
+            seq.insert([0, 1, 3][(k + j) % 3], spec)
+            ops.append("bigmux %s %s" % (splitsets[k % len(splitsets)], " ".join(seq)))
+            k += 1
+    ops.append("bigmux 4096 0a:65535:p:0 0a:65535:e:1 a9:65533:m:2 45:65536:p:3 0a:1:p:1")
+    # aliasing: every writer entry point, payloads cut from ONE caller buffer with spare capacity
+    for si, specs in enumerate(ALIAS_SPECS):
+        sp = " ".join("%d:%d" % x for x in specs)
+        ops.append("alias slip %s %s" % (hx(alias_buffer(None, specs, si)), sp))
+        for ft in ALIAS_FRAMES:
+            ops.append("alias %02x %s %s" % (ft, hx(alias_buffer(ft, specs, si + ft)), sp))
+    for ft in range(256):                             # every frame byte
+        specs = [(0, 8), (8, 8), (0, 8), (3, 9)]
+        ops.append("alias %02x %s %s" % (ft, hx(alias_buffer(ft, specs, ft)), " ".join("%d:%d" % x for x in specs)))
+    for off, n in [(0, 0), (0, 1), (0, 2), (2, 6), (10, 40), (0, 96), (90, 6), (5, 4)]:
+        ops.append("aliasfcs %s %d:%d" % (hx(alias_buffer(None, [], off + n)), off, n))
+    return ops
+
+
 def gen_ops(ctx):
     rng = ctx.rng
     quick = ctx.tier == "quick"
@@ -262,7 +343,7 @@ def run(ctx):
         r = json.load(open(ctx.replay))
         ops = [r["replay"]["op"]] if "op" in r.get("replay", {}) else []
     else:
-        ops = load_corpus() + gen_ops(ctx)
+        ops = load_corpus() + gen_deterministic_ops(ctx) + gen_ops(ctx)
     rc, out, err = ctx.run_bin(harness, input_text="\n".join(ops) + "\n")
     impl = out.splitlines()
 
@@ -344,6 +425,71 @@ def run(ctx):
                 cls = "coap" if ft == COAP else "ip4" if 0x45 <= ft <= 0x4F else "ip6" if 0x60 <= ft <= 0x6F else \
                     "invalid" if ft in (0, END, ESC) else "diag" if ft == DIAG else "other"
                 nontrivial.add(("mux", cls, w, min(len(p), 8), tuple(sorted(set(p) & set(SPECIAL))), f[1] == "1"))
+        elif kind == "big":
+            want = [digest(pattern(int(a), b, int(c))) for a, b, c in (x.split(":") for x in f[2:]) if int(a) > 0]
+            got = [] if kv["pk"] == "none" else kv["pk"].split(",")
+            sizes = [int(x.split(":")[0]) for x in f[2:]]
+            if got != want or kv["prefixes"] != "0" or kv["tail"] != "-" or kv["end"] != "eof":
+                if kv["prefixes"] != "0":
+                    key = "slip:large-packet-handed-out-in-pieces-without-transport-cause"
+                    what = ("a packet of %d bytes is not returned as one payload: ReadPacket reported isPrefix=true with err=nil although every "
+                            "Read delivered data" % max(sizes))
+                elif len(got) != len(want):
+                    key, what = "slip:large-packets-merged-or-lost", "packet count differs"
+                else:
+                    key, what = "slip:large-payload-differs", "payload bytes differ"
+                ctx.violation(key, "%s: sent %s, ReadPacket returned %s prefixes=%s tail=%s end=%s (splits %s)" % (
+                    what, " ".join(f[2:]), kv["pk"][:300], kv["prefixes"], kv["tail"], kv["end"], f[1]), {"op": op, "impl": r})
+            dist["big_bytes"] = dist.get("big_bytes", 0) + sum(sizes)
+            nontrivial.add(("big", max(sizes), [x.split(":")[1] for x in f[2:] if int(x.split(":")[0]) == max(sizes)][0],
+                            sizes.index(max(sizes)), f[1]))
+        elif kind == "bigmux":
+            want = []
+            for x in f[2:]:
+                ft, a, b, c = x.split(":")
+                ft = int(ft, 16)
+                pl = bytearray(pattern(int(a), b, int(c)))
+                if is_ip(ft) and pl:
+                    pl[0] = ft
+                want.append("%02x:%s" % (ft, digest(pl)))
+            got = [] if kv["pk"] == "none" else kv["pk"].split(",")
+            sizes = [int(x.split(":")[1]) for x in f[2:]]
+            if got != want:
+                key = "mux:large-packets-merged-or-lost" if len(got) != len(want) else "mux:large-payload-or-frame-differs"
+                ctx.violation(key, "sent %s, SlipMuxReader returned %s (splits %s)" % (" ".join(f[2:]), kv["pk"][:300], f[1]),
+                              {"op": op, "impl": r})
+            dist["big_bytes"] = dist.get("big_bytes", 0) + sum(sizes)
+            nontrivial.add(("bigmux", max(sizes), f[2 + sizes.index(max(sizes))][:2], sizes.index(max(sizes)), f[1]))
+        elif kind == "alias":
+            who = f[1]
+            buf = unhx(f[2])
+            specs = [tuple(int(v) for v in x.split(":")) for x in f[3:]]
+            pls = [buf[o:o + n] for o, n in specs]                       # the payloads as the caller sees them
+            cls = "slip" if who == "slip" else "mux-coap" if int(who, 16) == COAP else "mux-ip" if is_ip(int(who, 16)) else "mux-plain"
+            if kv["clobber"] != "none":
+                ctx.violation("alias:%s-write-modifies-callers-buffer" % cls,
+                              "WritePacket(%s) changed the caller's backing array (call@index %s): payloads were sub-slices %s of one "
+                              "buffer with spare capacity" % (who, kv["clobber"], " ".join(f[3:])), {"op": op, "impl": r})
+            sent = [unhx(h) for h in kv["sent"].split(",")]
+            if who == "slip":
+                want = [p for p in pls if p]
+                got = [] if kv["pk"] == "none" else [unhx(h) for h in kv["pk"].split(",")]
+                ok = got == want and kv.get("tail") == "-"
+            else:
+                ft = int(who, 16)
+                got = [] if kv["pk"] == "none" else [(int(x[:2], 16), unhx(x[3:])) for x in kv["pk"].split(",")]
+                want = [(ft, p) for p in pls]
+                ok = got == want if all(mux_wf(ft, p) for p in pls) else True
+            if sent != pls or not ok:
+                ctx.violation("alias:%s-received-differs-from-payloads-at-call-time" % cls,
+                              "sub-slices %s of buffer %s through WritePacket(%s): reader delivered %s" % (
+                                  " ".join(f[3:]), f[2][:80], who, kv["pk"][:300]), {"op": op, "impl": r})
+            dist["alias_calls"] = dist.get("alias_calls", 0) + len(specs)
+            nontrivial.add(("alias", who, tuple(specs)))
+        elif kind == "aliasfcs":
+            if r != "readonly=ok append=ok":
+                ctx.violation("alias:fcs-helper-modifies-callers-data", "%s -> %s" % (op[:200], r), {"op": op, "impl": r})
+            nontrivial.add(("aliasfcs", f[2]))
         elif kind == "fcs":
             d = unhx(f[1])
             ref = crc16_x25_state(d)
@@ -358,7 +504,9 @@ def run(ctx):
 
     # ---------------- correspondence with the Lean model
     if model:
-        keep = [i for i, o in enumerate(ops) if not o.startswith("slipeof")]      # slipeof: oracle only
+        # oracle only: slipeof (transport outside the model), big/bigmux (64 KiB+ payloads; the list-append model is quadratic),
+        # aliasfcs (memory effects only).  alias ops ARE compared: the model has no mutable memory, so it predicts clobber=none.
+        keep = [i for i, o in enumerate(ops) if not o.startswith(("slipeof", "big", "aliasfcs"))]
         mops = [ops[i] for i in keep]
         rcm, mout, merr = ctx.run_bin(model, input_text="\n".join(mops) + "\n")
         diffs = ctx.diff_lines(mops, [impl[i] for i in keep], mout.splitlines())
@@ -377,7 +525,14 @@ def run(ctx):
     cov = {
         "evaluations": len(ops),
         "distinct_nontrivial": len(nontrivial),
-        "rule": "slip: 1-10 payloads (bytes drawn from END/ESC/ESC_END/ESC_ESC with density 0/0.3/0.6/1, specials forced at packet "
+        "rule": "deterministic (both tiers): big/bigmux = payloads of 23 sizes around powers of two from 4095 to 262145 bytes (incl. 65533..65537, "
+                "70000, 131069..131073) x escape-free/escape-only/mixed content x first/middle/last packet, through Writer/Reader and "
+                "SlipMuxWriter/SlipMuxReader (frames diag, CoAP, IPv4, IPv6, 0xDD), every ReadPacket return listed (isPrefix pieces marked); "
+                "alias = payloads handed to slip.Writer.WritePacket and SlipMuxWriter.WritePacket (13 representative frames x 5 block layouts + "
+                "all 256 frame bytes) as sub-slices with spare capacity of ONE caller buffer (consecutive, overlapping, same slice again, up to the "
+                "end), buffer compared with a pristine copy after every call and received packets compared with the payloads at call time; "
+                "aliasfcs = CalcFcs16/CalcFcs16WithInit/CheckFsc16/RemoveFcs16 read-only, AppendFcs16 leaves data[:len] alone. "
+                "Randomised: slip: 1-10 payloads (bytes drawn from END/ESC/ESC_END/ESC_ESC with density 0/0.3/0.6/1, specials forced at packet "
                 "ends/starts, lengths 1-%d, plus every payload over {C0,DB,DC,DD,41} up to length 3/4) written by the real Writer and read by "
                 "the real Reader over a chunking io.Reader (splits incl. 1-byte reads and one big read); raw: every stream over that alphabet "
                 "up to length 5/6 + random streams through the Reader; mux: frames of every class (diag, CoAP, IPv4, IPv6, other, filtered) "
